@@ -327,7 +327,7 @@ func judge(sc *Scenario, res *result) (misses []miss, classes []string) {
 	}
 	if sc.Client.Disconnect {
 		classes = append(classes, "client-disconnect")
-		if sc.Client.Class == "near-try" || sc.Client.Class == "near-global" || sc.Client.Class == "near-answer" && len(res.Arrivals) > 0 && terminalCapable[sc.Steps[0].Kind] {
+		if sc.Client.Class == "near-try" || sc.Client.Class == "near-global" || (sc.Client.Class == "near-answer" || sc.Client.Class == "at-answer") && len(res.Arrivals) > 0 && terminalCapable[sc.Steps[0].Kind] {
 			near = true
 		}
 	}
